@@ -31,6 +31,9 @@ def main():
             continue
         with open(os.path.join(d, "meta.json")) as f:
             meta = json.load(f)
+        if meta.get("no_longer_breaks_property"):
+            print(f"{name}: skipped - since {meta['no_longer_breaks_property']['since']} this change no longer breaks the property")
+            continue
         wt = tempfile.mkdtemp(prefix=f"selftest-{name}-", dir="/tmp")
         os.rmdir(wt)
         evd = tempfile.mkdtemp(prefix="selftest-ev-", dir="/tmp")
